@@ -1018,7 +1018,12 @@ impl World {
 			self.violate("C03", "C03-1 PaymentSent although the recipient never released the preimage", msg);
 		}
 		if !p.ev.failed.is_empty() {
-			let msg = format!("node {} pay {}: PaymentSent after PaymentFailed", n, pay);
+			let ctx = if p.failed_handling_lost && p.ev.failed.iter().all(|f| f.1 < self.nodes[n].incarnation) {
+				" [PaymentFailed was handled in an earlier incarnation, after the ChannelManager snapshot this incarnation restarted from: what failed the payment then (a force close, a refused send) was rolled back by the restart]"
+			} else {
+				""
+			};
+			let msg = format!("node {} pay {}: PaymentSent after PaymentFailed{}", n, pay, ctx);
 			self.violate("C03", "C03-5 contradictory terminal events", msg);
 		}
 		let inc = self.nodes[n].incarnation;
@@ -1069,6 +1074,8 @@ impl World {
 			let earlier = p.paths.iter().any(|x| self.nodes[n].ever_outdated_chans.contains(&x.chans[0]));
 			let ctx = if outdated {
 				" [its first-hop channel was closed with OutdatedChannelManager in this incarnation: failed once at start-up from the stale manager's view and again when the newer ChannelMonitor resolved the HTLC on chain]"
+			} else if !earlier && p.paths.iter().any(|x| self.nodes[n].closed_in_earlier_incarnation.contains(&x.chans[0])) {
+				" [its first-hop channel had already been closed in an earlier incarnation: the stale ChannelManager closes it again, failing the payment at start-up and once more when the ChannelMonitor resolves the HTLC on chain]"
 			} else if earlier {
 				" [its first-hop channel was closed with OutdatedChannelManager in an earlier incarnation: the failure generated then is generated again by this incarnation's start-up and once more when the ChannelMonitor resolves the HTLC on chain]"
 			} else {
@@ -1374,7 +1381,13 @@ impl World {
 						self.nodes[sender].loaded_gens.iter().any(|l| *g + 1 > *l)
 					}) && !self.nodes[sender].loaded_gens.is_empty();
 				let inflight_close = p.paths.iter().any(|x| self.nodes[sender].closed_inflight.contains(&x.chans[0]));
-				let ctx = if inflight_close {
+				let punished = p.paths.iter().any(|x| {
+					let c = &self.chans[x.chans[0]];
+					self.revoked_after_broadcast.contains(&c.a) || self.revoked_after_broadcast.contains(&c.b)
+				});
+				let ctx = if punished {
+					" [consequence of C05-2: this node revoked a commitment it had already broadcast (or its first-hop peer did): the channel was resolved by justice transactions and the HTLC's fate was never reported]"
+				} else if inflight_close {
 					" [its first-hop channel was closed while an asynchronous monitor update of that channel was still in flight; HTLC failures waiting for that update are dropped with the channel]"
 				} else if phantom {
 					" [multi-part payment; a PaymentPathFailed of one part was handled (and the part marked resolved in its ChannelMonitor) after the ChannelManager snapshot the sender later restarted from, which still counts that part as in flight]"
